@@ -11,6 +11,8 @@ pub enum Config {
     Stdlib,
     /// stdlib + jekyll + shopify + extra filters (jekyll `sort` replaces the stdlib one)
     Full,
+    /// `Full` with the jekyll-style `{% include name k=v %}` tag in place of the stdlib `include`
+    Jekyll,
 }
 
 impl Config {
@@ -19,12 +21,14 @@ impl Config {
             Config::Empty => "empty",
             Config::Stdlib => "stdlib",
             Config::Full => "full",
+            Config::Jekyll => "jekyll",
         }
     }
     pub fn from_name(s: &str) -> Config {
         match s {
             "empty" => Config::Empty,
             "full" => Config::Full,
+            "jekyll" => Config::Jekyll,
             _ => Config::Stdlib,
         }
     }
@@ -58,8 +62,19 @@ fn base<P: liquid::partials::PartialCompiler>(b: ParserBuilder<P>, c: Config) ->
     let b = match c {
         Config::Empty => b,
         Config::Stdlib => b.stdlib(),
-        Config::Full => b
-            .stdlib()
+        Config::Jekyll => base_full(b.stdlib()).tag(liquid_lib::jekyll::IncludeTag),
+        Config::Full => base_full(b.stdlib()),
+    };
+    // monitor plugins (harness-owned observation points; never part of generated C01 inputs)
+    if c == Config::Empty {
+        b
+    } else {
+        b.filter(plug::VDump).filter(plug::Digest).tag(plug::EnvDumpTag).tag(plug::PartialProbeTag)
+    }
+}
+
+fn base_full<P: liquid::partials::PartialCompiler>(b: ParserBuilder<P>) -> ParserBuilder<P> {
+    b
             .filter(liquid_lib::jekyll::Slugify)
             .filter(liquid_lib::jekyll::Push)
             .filter(liquid_lib::jekyll::Pop)
@@ -68,14 +83,7 @@ fn base<P: liquid::partials::PartialCompiler>(b: ParserBuilder<P>, c: Config) ->
             .filter(liquid_lib::jekyll::ArrayToSentenceString)
             .filter(liquid_lib::jekyll::Sort)
             .filter(liquid_lib::shopify::Pluralize)
-            .filter(liquid_lib::extra::DateInTz),
-    };
-    // monitor plugins (harness-owned observation points; never part of generated C01 inputs)
-    if c == Config::Empty {
-        b
-    } else {
-        b.filter(plug::VDump).filter(plug::Digest).tag(plug::EnvDumpTag).tag(plug::PartialProbeTag)
-    }
+            .filter(liquid_lib::extra::DateInTz)
 }
 
 pub fn parser(c: Config) -> Parser {
